@@ -356,6 +356,10 @@ func (v *env) expr(e ast.Expr) string {
 				if isBigNew(sel.X) && len(x.Args) == 1 {
 					return v.expr(x.Args[0])
 				}
+			case "Sqrt": // new(big.Int).Sqrt(p): floor square root
+				if isBigNew(sel.X) && len(x.Args) == 1 {
+					return "(N.sqrt " + v.expr(x.Args[0]) + ")"
+				}
 			case "Uint64": // low 64 bits
 				if len(x.Args) == 0 {
 					return "(wrap64 " + v.expr(sel.X) + ")"
